@@ -34,11 +34,14 @@ def QInv (q : QT α) : Prop := Inv q.root (rootCell q.bound)
 /-- the only assumption on the square root used to size the pruning box: an upper bound -/
 def SqrtUp (sqrt : α → α) : Prop := ∀ x, 0 ≤ x → 0 ≤ sqrt x ∧ x ≤ sqrt x * sqrt x
 
-/-- closed-box membership used by the in-bound query -/
+/-- closed-box membership, written out with explicit inequalities (independent of the model's
+    `Bound.contains`): used by the in-bound query AND by the add clause of `Spec` -/
 def inBox (b : Bound α) (p : Pt α) : Bool :=
   decide (b.lo.x ≤ p.x ∧ p.x ≤ b.hi.x ∧ b.lo.y ≤ p.y ∧ p.y ≤ b.hi.y)
 
-/-- "strictly within the optional distance limit" -/
+/-- "strictly within the optional distance limit".  The property text does not say what a NEGATIVE
+    limit means; the code squares the limit (`maxDistance[0] * maxDistance[0]`), so a limit `m` acts
+    as `|m|` — that behaviour is what is specified here (`within_neg`, `within_iff_lt_abs` below). -/
 def within (pt : Pt α) (maxDist : Option α) (x : Ptr α) : Bool :=
   match maxDist with
   | none => true
@@ -70,7 +73,7 @@ def step (sqrt : α → α) (q : QT α) : Op α → QT α × Out α
     and as the new contents `cs'` (a multiset: everything is up to permutation). -/
 def Spec (qb : Bound α) (cs : List (Ptr α)) : Op α → Out α → List (Ptr α) → Prop
   | .add p, .flag ok, cs' =>
-    (ok = qb.contains p.p) ∧ (if ok then cs'.Perm (p :: cs) else cs'.Perm cs)
+    (ok = inBox qb p.p) ∧ (if ok then cs'.Perm (p :: cs) else cs'.Perm cs)
   | .remove pt eq, .flag ok, cs' =>
     if ok then ∃ x, x ∈ cs ∧ eq x = true ∧ (∀ y ∈ cs, eq y = true → distSq x.p pt ≤ distSq y.p pt) ∧ cs.Perm (x :: cs')
     else (∀ y ∈ cs, eq y = false) ∧ cs'.Perm cs
@@ -101,6 +104,55 @@ end vocab
 set_option linter.unusedSectionVars false
 
 variable {α : Type} [Field α] [LinearOrder α] [IsStrictOrderedRing α]
+
+/-! ### the vocabulary against the model's own tests -/
+
+/-- the model's `Bound.contains` (the code's `Bound.Contains`: two negated disjunctions) is the closed
+    box of the specification -/
+theorem contains_eq_inBox (b : Bound α) (p : Pt α) : b.contains p = inBox b p := by
+  unfold Bound.contains inBox
+  by_cases h1 : p.y < b.lo.y ∨ b.hi.y < p.y
+  · rw [if_pos h1]
+    symm; rw [decide_eq_false_iff_not]
+    rintro ⟨-, -, h3, h4⟩
+    rcases h1 with h | h
+    · exact absurd h3 (not_le.mpr h)
+    · exact absurd h4 (not_le.mpr h)
+  · rw [if_neg h1]
+    by_cases h2 : p.x < b.lo.x ∨ b.hi.x < p.x
+    · rw [if_pos h2]
+      symm; rw [decide_eq_false_iff_not]
+      rintro ⟨h3, h4, -, -⟩
+      rcases h2 with h | h
+      · exact absurd h3 (not_le.mpr h)
+      · exact absurd h4 (not_le.mpr h)
+    · rw [if_neg h2]
+      symm; rw [decide_eq_true_iff]
+      simp only [not_or, not_lt] at h1 h2
+      exact ⟨h2.1, h2.2, h1.1, h1.2⟩
+
+/-- a negative limit acts exactly as its absolute value -/
+theorem within_neg (pt : Pt α) (m : α) (x : Ptr α) : within pt (some (-m)) x = within pt (some m) x := by
+  simp [within]
+
+theorem within_abs (pt : Pt α) (m : α) (x : Ptr α) : within pt (some |m|) x = within pt (some m) x := by
+  simp [within, abs_mul_abs_self]
+
+/-- in terms of an (unsquared) distance `s`: within the limit `m` ⟺ `s < |m|` -/
+theorem within_iff_lt_abs (pt : Pt α) (m s : α) (x : Ptr α) (hs : 0 ≤ s) (hss : s * s = distSq x.p pt) :
+    within pt (some m) x = true ↔ s < |m| := by
+  simp only [within, decide_eq_true_eq, ← hss, ← abs_mul_abs_self m]
+  constructor
+  · intro h
+    by_contra hc
+    exact absurd h (not_lt.mpr (mul_self_le_mul_self (abs_nonneg m) (not_lt.mp hc)))
+  · intro h
+    exact mul_self_lt_mul_self hs h
+
+/-- a zero limit (and hence `-0`) admits nothing: squared distances are not negative -/
+theorem within_zero (pt : Pt α) (x : Ptr α) : within pt (some 0) x = false := by
+  simp only [within, mul_zero, decide_eq_false_iff_not, not_lt]
+  exact add_nonneg (mul_self_nonneg _) (mul_self_nonneg _)
 
 /-! ### cells -/
 
